@@ -77,6 +77,10 @@ func floatGuard(w Facts, textDesc string) (intLike, notIntLike bool, unknown []s
 		if !strings.Contains(atom, textDesc) {
 			continue
 		}
+		// the bytes package has the same predicates on the text held as []byte
+		if strings.HasPrefix(atom, "bytes.") {
+			atom = "strings." + strings.TrimPrefix(atom, "bytes.")
+		}
 		switch {
 		case strings.HasPrefix(atom, "strings.Contains("+textDesc+", "):
 			needle := strings.TrimSuffix(strings.TrimPrefix(atom, "strings.Contains("+textDesc+", "), ")")
